@@ -369,6 +369,9 @@ def families(rng):
                                                dict(N=3, lanes=4, vsl=None), dict(N=1, lanes=2, vsl=None),
                                                dict(N=2, lanes=1, vsl=None)][next(c) % 5])
     add("two-cycle", [(0, 1), (1, 2), (2, 1), (2, 3)], {0: "main"}, {3: "free"})
+    add("merge-merge", [(0, 2), (1, 2), (2, 4), (3, 4), (4, 5)], {0: "main", 1: "ideal", 3: "ramp_out"}, {5: "free"})
+    add("merge-bifur-merge", [(0, 2), (1, 2), (2, 3), (2, 4), (3, 5), (4, 5), (5, 6)], {0: "main", 1: "ideal"},
+        {6: "cong"})
     return out
 
 
